@@ -439,6 +439,14 @@ def gen_pair(rng, fn, stream=None):
                     B = dict(A)
             else:
                 B = gen_prim(rng, kb, "lattice", [o[i] + rng.choice(LAT_OFFS) for i in range(3)])
+                if fn == "disk_to_disk" and rng.random() < 0.15:
+                    # both centres on the common line of the two planes, at a distance below / above r1 + r2
+                    # (the `elif ell <= radius1 + radius2` test of disk_to_disk and its fall-through)
+                    cr = cross(A["n"], B["n"])
+                    if any(abs(x) > 1e-9 for x in cr):
+                        u = unit(cr)
+                        k = rng.choice([0.25, 1.0, 4.0, 8.0, 16.0]) * rng.choice([-1.0, 1.0])
+                        B = dict(B, c=[A["c"][i] + k * u[i] for i in range(3)])
             if stream == "rotlat":
                 Rm = random_rot(rng)
                 t = [rng.uniform(-5, 5) for _ in range(3)]
